@@ -323,3 +323,25 @@ Proof.
     - intros (esp' & H & _). discriminate H. }
   rewrite H1, H2, H3. tauto.
 Qed.
+
+(* ---------- Flush / DropNotFlushed histories ---------- *)
+Inductive vop := VAdd (e : event) | VFlush | VDrop.
+Definition vs_step (st : vstore) (op : vop) : vstore :=
+  match op with VAdd e => snd (vs_add st e) | VFlush => vs_flush st | VDrop => vs_drop st end.
+Fixpoint wf_vops (n : nat) (Ef Ec : list (N * event)) (ops : list vop) : Prop :=
+  match ops with
+  | [] => True
+  | VAdd e :: r => wf_ev n Ec e /\ wf_vops n Ef ((eid e, e) :: Ec) r
+  | VFlush :: r => wf_vops n Ec Ec r
+  | VDrop :: r => wf_vops n Ef Ef r end.
+Theorem vstore_inv n : forall ops st, vinv n (vs_flushed st) -> vinv n (vs_cur st) ->
+  wf_vops n (evs (vs_flushed st)) (evs (vs_cur st)) ops ->
+  let st' := fold_left vs_step ops st in vinv n (vs_flushed st') /\ vinv n (vs_cur st').
+Proof.
+  induction ops as [|op ops IH]; intros st If Ic W; cbn zeta; cbn [fold_left]; [auto|].
+  destruct op as [e| |]; cbn [wf_vops vs_step] in *.
+  - destruct W as [We Wo]. destruct (add_preserves n (vs_cur st) e Ic We) as (s1 & Hadd & I1 & Hevs).
+    unfold vs_add. rewrite Hadd. cbn [snd]. apply IH; cbn [vs_flushed vs_cur]; auto. rewrite Hevs. exact Wo.
+  - apply IH; cbn [vs_flush vs_flushed vs_cur]; auto.
+  - apply IH; cbn [vs_drop vs_flushed vs_cur]; auto.
+Qed.
